@@ -155,6 +155,19 @@ static void rs_r(void*) {
   if (S->x.load(std::memory_order_acquire) == 2)
     S->r[0] = S->data;
 }
+// own release sequence continued by an acquire-only RMW of the same thread after an OLDER release fence: a reader
+// that acquires the RMW's value must still synchronize with the release store (regression test for the runtime)
+static void rsf_w(void*) {
+  std::atomic_thread_fence(std::memory_order_release);
+  S->data = 7;
+  S->x.store(1, std::memory_order_release);
+  int exp = 1;
+  S->x.compare_exchange_strong(exp, 2, std::memory_order_acquire, std::memory_order_relaxed);
+}
+static void rsf_r(void*) {
+  if (S->x.load(std::memory_order_acquire) == 2)
+    S->r[0] = S->data;
+}
 // CAS counter: no lost updates even with stale reads
 static void cnt(void*) {
   for (int i = 0; i < 3; ++i) {
@@ -314,6 +327,14 @@ int main() {
     auto s = explore(N, true, 3, f, [] { return std::to_string(S->r[0]); }, &viol, &msg);
     CHECK(!viol, "release sequence: %s %s", viol, msg.c_str());
     CHECK(s.count("7") && s.count("0") && s.size() == 2, "release sequence outcomes");
+  }
+  {
+    ThreadFn f[] = {rsf_w, rsf_r};
+    viol = nullptr;
+    std::string msg;
+    auto s = explore(N, true, 2, f, [] { return std::to_string(S->r[0]); }, &viol, &msg);
+    CHECK(!viol, "release store + own acquire-RMW after older release fence: %s %s", viol, msg.c_str());
+    CHECK(s.count("7") && s.count("0") && s.size() == 2, "release store + own RMW outcomes");
   }
   // counter
   {
